@@ -7,8 +7,8 @@ BINA = os.path.join(simlib.BUILD, 'bin', 'iosimA')
 BINB = os.path.join(simlib.BUILD, 'bin', 'iosimB')
 
 TIERS = {
-    ('C11', 'quick'): dict(seeded=100000, trunc='trunc', chunk=1000),
-    ('C11', 'thorough'): dict(seeded=2000000, trunc='truncall', chunk=2000),
+    ('C11', 'quick'): dict(seeded=100000, trunc='trunc', fields='fields', chunk=1000),
+    ('C11', 'thorough'): dict(seeded=2000000, trunc='truncall', fields='fieldsall', chunk=2000),
     ('C12', 'quick'): dict(seeded=60000, chunk=500),
     ('C12', 'thorough'): dict(seeded=800000, chunk=1000),
     ('C13', 'quick'): dict(seeded=60000, chunk=500),
@@ -88,6 +88,9 @@ def check(a):
         tm = cfg['trunc']
         n = int(subprocess.run([BINA, '--count', '--mode', tm, '--seed', str(seed)], stdout=subprocess.PIPE, text=True).stdout.strip() or 0)
         phases.append((tm, n))
+        fm = cfg['fields']
+        n = int(subprocess.run([BINA, '--count', '--mode', fm, '--seed', str(seed)], stdout=subprocess.PIPE, text=True).stdout.strip() or 0)
+        phases.append((fm, n))
     cands = []
     totals = dict(runs=0, steps=0, reads=0, seeks=0, writes=0, short_reads=0, eio=0, seekfail=0, eof_hits=0, file_faults=0, ab_pairs=0, ab_mismatch=0)
     outcomes, fault_kinds, states, traces, nontrivial = {}, {}, set(), set(), set()
@@ -100,8 +103,8 @@ def check(a):
         args = ['--mode', ph_mode, '--seed', str(seed)]
         half = max(1, a.workers // 2)
         import threading
-        pa = simlib.WorkerPool(BINA, args, n, cfg['chunk'], workers=half, deadline=deadline, per_run_timeout=20)
-        pb = simlib.WorkerPool(BINB, args, n, cfg['chunk'], workers=a.workers - half or 1, deadline=deadline, per_run_timeout=20)
+        pa = simlib.WorkerPool(BINA, args, n, cfg['chunk'], workers=half, deadline=deadline, per_run_timeout=6)
+        pb = simlib.WorkerPool(BINB, args, n, cfg['chunk'], workers=a.workers - half or 1, deadline=deadline, per_run_timeout=6)
         ta = threading.Thread(target=pa.run)
         tb = threading.Thread(target=pb.run)
         ta.start(); tb.start(); ta.join(); tb.join()
@@ -120,15 +123,16 @@ def check(a):
             traces.add(tk)
             if r.get('steps', 0) >= 2 and (r.get('file_faults', 0) + r.get('eio', 0) + r.get('seekfail', 0) >= 1 or ph_mode in ('c12', 'c13')):
                 nontrivial.add('%s:%s:%s' % (ph_mode, tk, r['digest']))
+            rcfg = '%s/%s/%s/%s' % (r.get('fmt'), r.get('variant'), r.get('entry') or ph_mode, r.get('dev') or '-')
             if 'violation' in r:
-                cands.append((r['plan'], r['violation'], '%s i=%d' % (ph_mode, r['i'])))
+                cands.append((r['plan'], r['violation'], '%s i=%d' % (ph_mode, r['i']), rcfg))
             rb = resb.get(r['i'])
             if rb is not None:
                 totals['ab_pairs'] += 1
                 if rb['digest'] != r['digest'] and 'violation' not in r:
                     totals['ab_mismatch'] += 1
                     cands.append((('gen', ph_mode, r['i']), dict(cls='ab:digest-mismatch', site=r.get('cfg', '?'),
-                                  detail='A: %s %sx%s  B: %s %sx%s' % (r['cls'], r['w'], r['h'], rb['cls'], rb['w'], rb['h'])), '%s i=%d' % (ph_mode, r['i'])))
+                                  detail='A: %s %sx%s  B: %s %sx%s' % (r['cls'], r['w'], r['h'], rb['cls'], rb['w'], rb['h'])), '%s i=%d' % (ph_mode, r['i']), rcfg))
         for pool, nm in ((pa, 'A'), (pb, 'B')):
             for d in pool.deaths:
                 v = simlib.classify_stderr(d['stderr'])
@@ -138,10 +142,10 @@ def check(a):
                     if m:
                         v = dict(cls=m.group(1), site=m.group(2), detail=m.group(3))
                 if d.get('timeout'):
-                    v = dict(cls='watchdog:timeout', site='wall-clock', detail='worker made no progress for 20 s (build %s)' % nm)
+                    v = dict(cls='watchdog:timeout', site='wall-clock', detail='worker made no progress for 6 s (build %s)' % nm)
                 if v is None:
                     v = dict(cls='exit:%d' % d['rc'], site='unknown', detail=d['stderr'][-300:])
-                cands.append((('gen', ph_mode, d['i']), v, '%s worker-death(%s) i=%d' % (ph_mode, nm, d['i'])))
+                cands.append((('gen', ph_mode, d['i']), v, '%s worker-death(%s) i=%d' % (ph_mode, nm, d['i']), None))
         if len(samples) < 4:
             p = gen_plan(ph_mode, seed, 0)
             if p:
@@ -150,31 +154,30 @@ def check(a):
             if p:
                 samples.append(p)
     # ---- triage: group by (cls, site), confirm + minimise one representative each
+    # Known findings without a plan predicate are matched per candidate (with the candidate's own config), so that a new
+    # defect of the same class in another file variant is never hidden behind a known representative.
     groups = {}
-    for planref, v, origin in cands:
-        if v.get('third_party'):
-            key = ('excluded:third-party', v['cls'], v['site'])
-        else:
-            key = ('v', v['cls'], v['site'])
-        g = groups.setdefault(key, dict(count=0, planref=planref, v=v, origin=origin))
-        g['count'] += 1
     violations, known_hit, excluded, exit2 = [], {}, {}, False
+    for planref, v, origin, rcfg in cands:
+        if v.get('third_party'):
+            excluded['%s|%s' % (v['cls'], v['site'])] = excluded.get('%s|%s' % (v['cls'], v['site']), 0) + 1
+            continue
+        if rcfg is not None:
+            k = simlib.match_known(known, prop, rcfg, v, plan=None)
+            if k is not None:
+                known_hit[k['id']] = known_hit.get(k['id'], 0) + 1
+                continue
+        g = groups.setdefault((v['cls'], v['site']), dict(count=0, planref=planref, v=v, origin=origin, members=[]))
+        g['count'] += 1
+        if len(g['members']) < 40:
+            g['members'].append((planref, v, origin, rcfg))
     processed = 0
     for key, g in sorted(groups.items(), key=lambda kv: str(kv[0])):
-        if key[0] != 'v':
-            excluded['%s|%s' % (key[1], key[2])] = g['count']
-            continue
         plan = g['planref']
         if isinstance(plan, tuple):
             plan = gen_plan(plan[1], seed, plan[2])
-        cfgs = config_of(plan)
-        need = []
-        k = simlib.match_known(known, prop, cfgs, g['v'], plan=None, need_plan=need)
-        if k is not None:
-            known_hit[k['id']] = known_hit.get(k['id'], 0) + g['count']
-            continue
-        if processed >= 10:
-            violations.append(('%s|%s|%s' % (prop, key[1], key[2]), None))
+        if processed >= 24:
+            violations.append(('%s|%s|%s' % (prop, key[0], key[1]), None))
             continue
         processed += 1
         res = triage(prop, plan, g, known)
@@ -182,10 +185,25 @@ def check(a):
             exit2 = True
         elif isinstance(res, tuple) and res[0] == 'known':
             known_hit[res[1]] = known_hit.get(res[1], 0) + g['count']
+            # known by a predicate over the minimised plan: look at a few more members with other configs
+            seen_cfg = {g['members'][0][3]}
+            extra = 0
+            for planref, v, origin, rcfg in g['members'][1:]:
+                if rcfg in seen_cfg or extra >= 3:
+                    continue
+                seen_cfg.add(rcfg); extra += 1
+                p2 = gen_plan(planref[1], seed, planref[2]) if isinstance(planref, tuple) else planref
+                r2 = triage(prop, p2, dict(v=v, origin=origin, count=1), known)
+                if r2 == 'flaky':
+                    exit2 = True
+                elif isinstance(r2, tuple):
+                    continue
+                else:
+                    violations.append(('%s|%s|%s' % (prop, key[0], key[1]), r2))
         elif isinstance(res, tuple) and res[0] == 'excluded':
             excluded[res[1]] = excluded.get(res[1], 0) + g['count']
         else:
-            violations.append(('%s|%s|%s' % (prop, key[1], key[2]), res))
+            violations.append(('%s|%s|%s' % (prop, key[0], key[1]), res))
     wall = time.time() - t0
     level = 'fault_enumeration' if prop == 'C11' else 'exploration'
     cov = dict(
